@@ -259,6 +259,21 @@ class Scenario:
                 ops.append((v["update_at"], lambda: w.spawn(op_update(A, "S1", newer))))
                 ops.append((v["update_at"] + 3000, lambda: start_browser("C/a", C, TA)))
                 checkpoints.append(v["update_at"] + 3000 + SETTLE_MS)
+            elif self.name == "hurried":
+                # the application registers the usual way - it does not wait for the task that sends announcements 2 and 3 - and
+                # withdraws the service `gap` ms later, while that task is still at work
+                async def hurried() -> None:
+                    infos["S1"] = make_info(S1)
+                    await host_a.zc.async_register_service(infos["S1"])
+                    history.append(("S1", S1, w.now_ms, None))
+                    if v["gap"]:
+                        await asyncio.sleep(v["gap"] / 1000)
+                    await op_unregister(host_a, "S1")
+
+                host_a = A
+                ops.append((v["browse_at"], lambda: start_browser("B/a", B, TA)))
+                ops.append((1000, lambda: w.spawn(hurried())))
+                checkpoints.append(1000 + 1000 + v["gap"] + 300 + SETTLE_MS)
             elif self.name == "flipflop":
                 # a description is changed and at once changed back (the application corrects a mistake): hosts that heard both
                 # hold the superseded SRV/TXT records next to the current ones (a cache-flush record leaves records younger
@@ -389,6 +404,8 @@ def plan(tier: str) -> List[Tuple[str, Dict[str, Any], int]]:
             ("leave", {"browse_at": 5000, "after": 30, "how": "unregister", "late": True, "socks": "dual"}, 2),
             ("leave", {"browse_at": 5000, "after": 130, "how": "close", "late": True, "socks": "dual"}, 2),
             ("idle", {"browse_at": 0}, 1), ("flap", {"browse_at": 0}, 1),
+            ("hurried", {"browse_at": 0, "gap": 0}, 2), ("hurried", {"browse_at": 0, "gap": 30}, 2),
+            ("hurried", {"browse_at": 0, "gap": 230}, 2), ("hurried", {"browse_at": 0, "gap": 260}, 2),
             ("flipflop", {"browse_at": 23_000, "new_object": True}, 1), ("flipflop", {"browse_at": 23_000}, 1),
             ("flipflop", {"browse_at": 60_000, "new_object": True, "pause_ms": 400}, 1),
             ("unregister", {"browse_at": 0, "browse_cased": True}, 1), ("unregister", {"browse_at": 5000, "browse_cased": True}, 1),
@@ -430,7 +447,7 @@ def run(tier: str, seed: int) -> Tuple[Stats, str, List[str], Dict[str, Any]]:
         label = f"{name}/{variant['browse_at']}{'/late' if variant.get('late') else ''}{'/multi' if variant.get('multi') else ''}{'/' + variant['socks'] if variant.get('socks') else ''}{'/' + variant['how'] + '+' + str(variant['after']) if name == 'leave' else ''}{'/qm' if variant.get('qm') else ''}{'/long' if variant.get('long') else ''}{'/browse_cased' if variant.get('browse_cased') else ''}" + (
             f"/unreg+{variant['unregister_after']}" if name == "churn" else "") + "".join(
             f"/{k}={variant[k]}" if not isinstance(variant[k], bool) else f"/{k}" for k in ("update_at", "cased", "addr", "new_object")
-            if k in variant and name in ("update-queued", "flipflop")) + ("/readdress" if variant.get("readdress") else "")
+            if k in variant and name in ("update-queued", "flipflop")) + (f"/gap={variant['gap']}" if name == "hurried" else "") + ("/readdress" if variant.get("readdress") else "")
         done = explore_deviations(sc.run, bound, stats, label,
                                   max_execs=None if tier == "quick" else 1_500_000)
         completed[label] = done
